@@ -117,7 +117,7 @@ def m_x_Constant(self, st, n, k):
     return k(st, SpecEval(self, st, {}).ev_Constant(n))
 
 
-BUILTIN_NAMES = {'StructUnpack', 'StructPack', 'StructUnpackFrom', 'len', 'isinstance', 'getattr', 'setattr', 'hasattr', 'callable', 'bool', 'int',
+BUILTIN_NAMES = {'map', 'StructUnpack', 'StructPack', 'StructUnpackFrom', 'len', 'isinstance', 'getattr', 'setattr', 'hasattr', 'callable', 'bool', 'int',
                  'list', 'reversed', 'range', 'sorted', 'zip', 'bytes', 'str', 'repr', 'type',
                  'max', 'min', 'bisect_right', 'bisect_left', 'tuple', 'dict', 'set', 'sum', 'all', 'any',
                  'bin', 'ord', 'breakpoint'}
@@ -154,7 +154,7 @@ def m_x_Attribute(self, st, n, k):
     # module-qualified builtins
     if isinstance(n.value, ast.Name) and n.value.id not in st.loc:
         q = '%s.%s' % (n.value.id, n.attr)
-        if q in ('int.from_bytes', 'struct.Struct', 'struct.error', 're.escape', 'copy.deepcopy', 'sys.exc_info',
+        if q in ('int.from_bytes', 'struct.Struct', 'struct.error', 're.escape', 'copy.deepcopy', 'sys.exc_info', 'copy.copy',
                  'traceback.format_exception',
                  'Bits.ByteBoundaryError', 'sys.byteorder', 'operator.truth', 're.compile',
                  'pickle.dumps', 'pickle.loads', 'Exception.__init__', 're.DEBUG', 'os.path'):
@@ -505,7 +505,7 @@ def m_call(self, st, f, pos, kws, kwstar, starv, k, node=None):
     if f.tag == 'bound':
         if f.payload[1] in ('pack_impl',):
             return self.bm_dyn_pack_impl(st, f.payload[0], pos, kws, k, kwstar=kwstar)
-        return self.call_bound(st, f.payload[0], f.payload[1], pos, kws, k)
+        return self.call_bound(st, f.payload[0], f.payload[1], pos, kws, k, kwstar=kwstar)
     if f.tag == 'class':
         return self.call_class(st, f.payload[0], pos, kws, kwstar, k)
     if f.tag == 'contract' and getattr(self, 'tv_mode', False) and \
@@ -758,7 +758,9 @@ def m_call_contract(self, st, c, pos, kws, kwstar, k, site=''):
         self.add_obligation(st, 'assert@call', 'at call of %s: %s' % (short(c.name), clause[:60]),
                             self.spec_goal(st, clause, e2, old=self.fn_pre), clause)
     for g, expr in (self.cur.call_effects.get(short(c.name), {}) if self.cur is not None else {}).items():
-        st.ghost[g] = self.spec(st, expr, dict(self.fn_env))
+        e3 = dict(self.fn_env)
+        e3.update({gg: v for gg, v in st.ghost.items() if isinstance(v, V)})
+        st.ghost[g] = self.spec(st, expr, e3)
     # a dynamically typed argument for a typed parameter: its type is an obligation
     for p, kind in c.params.items():
         v = env.get(p)
@@ -830,6 +832,9 @@ def m_call_contract(self, st, c, pos, kws, kwstar, k, site=''):
     else:
         res = self.wrap(c.returns, fresh('res', self.kind_sort(c.returns)))
     env3['result'] = res
+    # a returned reference designates an object that exists in the post-state
+    if isinstance(res, (VRef, VList)) and not c.returns.startswith('same:'):
+        s3.assume(z3.And(res.z >= 0, res.z < s3.heap['next']))
     ok = True
     for ei, e in enumerate(c.ensures):
         g = zs(self.spec_bool(s3, e, env3, old=pre))
@@ -885,7 +890,8 @@ def m_mod_footprint(self, st, c, env):
             continue
         if m.endswith('.*'):
             o = self.spec(st, m[:-2], env)
-            for cc in self.mro(o.cls):
+            # every attribute the object can have: those of its class, its bases and its subclasses
+            for cc in [x for x in self.classes if x in self.mro(o.cls) or o.cls in self.mro(x)]:
                 for a, kd in self.classes.get(cc, {}).get('attrs', {}).items():
                     fp.setdefault('%s.%s%s' % (cc, a, '#' if kd.startswith('dict:') else ''), []).append(o.z)
             continue
@@ -1530,6 +1536,13 @@ def m_bi_zip(self, st, pos, kws, k, starv=None):
     raise Untranslated('zip')
 
 
+def m_bi_map(self, st, pos, kws, k):
+    # map() is lazy: building the iterator calls nothing; only consuming it would
+    v = V()
+    v.kind = 'lazy-map'
+    return k(st, v)
+
+
 def m_bi_max(self, st, pos, kws, k):
     a, ca = self.as_int(pos[0])
     b, cb = self.as_int(pos[1])
@@ -1545,6 +1558,8 @@ def m_bi_copy_deepcopy(self, st, pos, kws, k):
     v = pos[0]
     if isinstance(v, (VInt, VBool, VBytes, VNone, VStr)):
         return k(st, v)
+    if isinstance(v, VRef):
+        v = VDyn(T.Val.VR(v.z))
     if isinstance(v, VDyn):
         # deep copy: immutable primitives are returned as they are; anything else is a fresh object
         # structurally equal to the original (assumed; deepcopy contract)
@@ -1558,6 +1573,44 @@ def m_bi_copy_deepcopy(self, st, pos, kws, k):
         nz = self.deepcopy_obj(s2, z)
         return k(s2, VDyn(nz))
     raise Untranslated('deepcopy(%s)' % v.kind)
+
+
+def m_bi_pickle_dumps(self, st, pos, kws, k):
+    """pickle.dumps(obj, proto): an opaque blob (immutable) or an exception for unpicklable objects"""
+    self.used_assumptions.add('pickle.dumps/loads: loads(dumps(x)) is a fresh object graph sharing nothing mutable with x (assumed)')
+    v = pos[0]
+    z = to_val(v)
+    bad = z3.Function('unpicklable', T.Val, st.heap['slots'].sort(), T.B)(z, st.heap['slots'])
+    blob = VDyn(T.Val.VO(z3.Function('pickle_blob', T.Val, T.I)(z)))
+    st.assume(z3.Function('is_pickle_blob', T.I, T.B)(z3.Function('pickle_blob', T.Val, T.I)(z)))
+    s2 = st.fork('pickle-fails')
+    s2.assume(bad)
+    self.do_raise(s2, VExc('OtherException*', eid=fresh('eid', T.I)))
+    st.assume(z3.Not(bad))
+    return k(st, blob)
+
+
+def m_bi_pickle_loads(self, st, pos, kws, k):
+    v = pos[0]
+    s2 = st.fork('unpickle-fails')
+    self.do_raise(s2, VExc('OtherException*', eid=fresh('eid', T.I)))
+    nz = self.deepcopy_obj(st, T.Val.VR(fresh('pickled_src', T.I)))
+    return k(st, VDyn(nz))
+
+
+def m_bi_copy_copy(self, st, pos, kws, k):
+    """copy.copy(x): a fresh top-level object whose contents (slots, list elements) are the SAME objects"""
+    v = pos[0]
+    if isinstance(v, (VInt, VBool, VBytes, VNone, VStr)):
+        return k(st, v)
+    z = to_val(v)
+    r = self.alloc(st, 'Packet')
+    src = z3.If(T.Val.is_VL(z), T.Val.lval(z), z3.If(T.Val.is_VR(z), T.Val.rval(z), T.Val.oval(z)))
+    for comp in ('slots', 'has', 'llen', 'lat'):
+        st.heap[comp] = z3.Store(st.heap[comp], r, z3.Select(st.heap[comp], src))
+    res = z3.If(T.Val.is_VL(z), T.Val.VL(r), z3.If(T.Val.is_VR(z), T.Val.VR(r), T.Val.VO(r)))
+    prim = z3.Or(T.Val.is_VI(z), T.Val.is_VB(z), T.Val.is_VN(z), T.Val.is_VBy(z), T.Val.is_VS(z))
+    return k(st, VDyn(z3.If(prim, z, res)))
 
 
 def m_deepcopy_obj(self, st, z):
@@ -1580,6 +1633,13 @@ def m_deepcopy_obj(self, st, z):
         old = st.heap[key]
         fr = fresh('hv', old.sort())
         st.heap[key] = z3.Lambda([rr], z3.If(rr < nxt0, z3.Select(old, rr), z3.Select(fr, rr)))
+    # the slots of a copied object hold the same primitives or fresh objects (nothing mutable is shared)
+    nm = z3.String('n!dc')
+    s_new = z3.Select(z3.Select(st.heap['slots'], r), nm)
+    h_new = z3.Select(z3.Select(st.heap['has'], r), nm)
+    prim0 = lambda v: z3.Or(T.Val.is_VI(v), T.Val.is_VB(v), T.Val.is_VN(v), T.Val.is_VBy(v), T.Val.is_VS(v))
+    ref0 = lambda v: z3.If(T.Val.is_VL(v), T.Val.lval(v), z3.If(T.Val.is_VR(v), T.Val.rval(v), T.Val.oval(v)))
+    st.assume(safe_forall([nm], z3.Implies(h_new, z3.Or(prim0(s_new), ref0(s_new) >= nxt0)), patterns=[s_new]))
     # a copied list has the same length; each element is the same primitive or a fresh object
     j = z3.Int('j!dc')
     src = T.Val.lval(z)
@@ -1596,9 +1656,43 @@ def m_deepcopy_obj(self, st, z):
     return res
 
 
+def m_bm_kw_get(self, st, kw, pos, kws, k):
+    """k.get(name, default) on the keyword dictionary threaded through pack/unpack"""
+    key = pos[0]
+    default = pos[1] if len(pos) > 1 else VNone()
+    if isinstance(key, VStr) and key.py == 'innermost-pkt-pos':
+        if isinstance(default, (VInt, VBool)):
+            d, _ = self.as_int(default)
+            return k(st, VInt(z3.If(T.Kw.has_ipp(kw.z), T.Kw.ipp(kw.z), d)))
+        return k(st, VDyn(z3.If(T.Kw.has_ipp(kw.z), T.Val.VI(T.Kw.ipp(kw.z)), to_val(default))))
+    raise Untranslated('k.get(%r)' % (key.py if isinstance(key, VStr) else key,))
+
+
+def m_bm_dyn_clone(self, st, obj, pos, kws, k):
+    """x.clone() on a dynamically typed value: only Prototype has a clone attribute among the classes under
+    contract; the receiver being a Prototype is an obligation, the call goes through the clone bodies' contracts"""
+    ok = self.isinst(st, obj, 'Prototype')
+    self.add_obligation(st.fork(), 'pre@call', 'receiver of .clone() is a Prototype', ok, '')
+    st.assume(ok)
+    pr = VRef(T.Val.rval(obj.z), 'Prototype')
+    return self.call(st, self.read_attr(st, pr, 'clone'), pos, kws, None, None, k)
+
+
 # ---------------------------------------------------------------------- bound methods of builtin values
-def m_call_bound(self, st, obj, attr, pos, kws, k):
+def m_call_bound(self, st, obj, attr, pos, kws, k, kwstar=None):
     h = getattr(self, 'bm_%s_%s' % (obj.kind, attr), None)
+    if h is None and obj.kind == 'dyn':
+        # a method of exactly one class under contract called on a dynamically typed receiver: the receiver
+        # being an instance of that class is an obligation; the call then goes through the method's contract
+        owners = [cn for cn in self.classes
+                  if '%s:%s.%s' % (self.classes[cn].get('module'), cn, attr) in self.contracts]
+        if len(owners) == 1:
+            cn = owners[0]
+            ok = self.isinst(st, obj, cn)
+            self.add_obligation(st.fork(), 'pre@call', 'receiver of .%s() is a %s' % (attr, cn), ok, '')
+            st.assume(ok)
+            recv = VRef(T.Val.rval(obj.z), cn)
+            return self.call_contract(st, self.method_contract(cn, attr), [recv] + pos, kws, kwstar, k)
     if h is None:
         raise Untranslated('method %s.%s' % (obj.kind, attr))
     return h(st, obj, pos, kws, k)
@@ -2051,6 +2145,14 @@ def m_assign(self, st, target, v, k):
                     st.heap['lat'] = z3.Store(st.heap['lat'], base.z, z3.Store(arr, self.norm_index(i, n), to_val(v)))
                     return k(st)
                 return self.with_raises(st, [(z3.Or(i >= n, i < -n), 'IndexError')], cont)
+            if isinstance(base, VConf) and isinstance(target.value, ast.Name) and isinstance(idx, (VStr, VDyn)):
+                # a keyword dictionary held in a local: value semantics (the update is not seen through other
+                # references to the same dict - recorded as an assumption)
+                self.used_assumptions.add('dict parameters (defaults, options) have value semantics: an update made by a callee is not seen by its caller')
+                kz = idx.z if isinstance(idx, VStr) else T.Val.sval(idx.z)
+                st.loc[target.value.id] = VConf(T.Conf.mkconf(z3.Store(T.Conf.chas(base.z), kz, True),
+                                                               z3.Store(T.Conf.cval(base.z), kz, to_val(v))))
+                return k(st)
             raise Untranslated('subscript assignment on %s' % base.kind)
         return self.ev_list(st, [target.value, target.slice], got)
     raise Untranslated('assignment target ' + type(target).__name__)
@@ -2311,9 +2413,22 @@ def m_loop_head(self, st, idx, spec, assigned, itname):
             st.loc[nme] = VRef(fresh(nme, T.I), cur.cls)
         else:
             st.loc[nme] = None
+    # ghost variables written inside the loop (iteration ghost code, call effects) are unknown at the head
+    for g in list(spec.ghost.keys()) + list(spec.ghost_havoc):
+        cur = st.ghost.get(g)
+        if isinstance(cur, V) and hasattr(cur, 'z') and not isinstance(cur, VRef):
+            st.ghost[g] = type(cur)(fresh(g, cur.z.sort()))
+        elif isinstance(cur, VRef):
+            st.ghost[g] = VRef(fresh(g, T.I), cur.cls)
     # havoc heap within the function's frame
     # everything allocated since function entry is local to this activation and may change too
-    self.havoc_modifies(st, entry, self.loop_frame_contract, self.fn_env,
+    lc = self.loop_frame_contract
+    if spec.modifies is not None:
+        import copy as _copy
+        lc = _copy.copy(lc)
+        lc.modifies = list(spec.modifies)
+    st.loop_contract = lc
+    self.havoc_modifies(st, entry, lc, self.fn_env,
                         nxt0=self.fn_pre.heap['next'], alloc=True, full=True)
     it = fresh('it', T.I)
     st.assume(it >= 0)
@@ -2326,7 +2441,12 @@ def m_loop_back_edge(self, st, idx, spec, it1, inv_env, entry):
     for j, inv in enumerate(spec.invariants):
         g = self.spec_goal(st, inv, inv_env(st, it1), old=self.fn_pre)
         self.add_obligation(st, 'inv-preserved', 'loop%d inv#%d preserved' % (idx, j), g, inv)
-    self.check_frame(st, entry, self.loop_frame_contract, 'loop%d frame' % idx)
+    lc = self.loop_frame_contract
+    if spec.modifies is not None:
+        import copy as _copy
+        lc = _copy.copy(lc)
+        lc.modifies = list(spec.modifies)
+    self.check_frame(st, entry, lc, 'loop%d frame' % idx)
 
 
 def m_unroll_for(self, st, s, items, k):
@@ -2614,6 +2734,14 @@ def m_verify_function(self, c):
     pre = st.fork()
     self.fn_pre = pre
     self.loop_frame_contract = c
+    if c.loops and cnt != max(c.loops) + 1:
+        # loop specifications are keyed by loop ordinal: a body with a different number of loops than the
+        # contract specifies no longer is the code the invariants were written for (a named obligation, so
+        # that the verdict rule applies: it fails only on a changed function)
+        self.add_obligation(State(), 'structure', 'the body has the %d loop(s) the contract specifies (found %d)'
+                            % (max(c.loops) + 1, cnt), z3.BoolVal(False), '')
+        self.ext = []
+        return self.obligations
     for g, expr in getattr(c, 'ghost_init', {}).items():
         st.ghost[g] = self.spec(st, expr, env)
 
